@@ -310,9 +310,14 @@ func (x *Exec) frameObligations(fr *Frame, env *CEnv, fin *State) {
 		elems []*Term
 	}
 	allow := map[string][]allowed{}
+	mapsFree := false
 	for _, me := range fc.Modifies {
 		star := false
 		e := me
+		if e.Kind == "id" && e.Name == "maps" {
+			mapsFree = true
+			continue
+		}
 		if e.Kind == "field" && e.Name == "*" {
 			star = true
 			e = e.Args[0]
@@ -342,7 +347,7 @@ func (x *Exec) frameObligations(fr *Frame, env *CEnv, fin *State) {
 	}
 	a0 := x.alloc(&fr.entry)
 	for _, k := range sortedKeys(fin.H) {
-		if k == "$alloc" {
+		if k == "$alloc" || mapsFree && strings.HasPrefix(k, "Map.") {
 			continue
 		}
 		now := fin.H[k]
